@@ -40,7 +40,8 @@ def moved_between(keep, out1, out2):
 
 
 def classify(case2):
-    """which known input class (if any) a stickiness violation falls in"""
+    """input class of the defect fixed by /repo 2a32c57 (regression signatures, no longer listed
+    as known), if the violation falls in one"""
     subscribed = {t for _, s in case2["members"] for t in s}
     if any(n for t, n in enumerate(case2["ppt"]) if n and t not in subscribed):
         return SIG_UNSUB_TOPIC
@@ -200,7 +201,7 @@ def run(ck: Check):
         "OCaml extraction of C14_Run.run_case (ExtrOcamlBasic only) for the volume evaluation; a sample is re-evaluated inside Coq",
         "harness/impl/c14_impl.py: second rounds claim what the previous REAL round returned, encoded by StickyPartitionAssignor._metadata and sent through ConsumerProtocolMemberMetadata.encode()/decode(); the op-log wrappers of C14",
         "the user-data codec is not modelled in Coq: tied by correspondence (what the real executor parsed == init_current of the claims that were sent)",
-        "StickyCtl abstracts the visiting order of partitions; the members-joined clause is therefore only searched, not proved",
+        "StickyCtl abstracts the visiting order of partitions (sorted_partitions); the members-joined clause depends on that order and is therefore only searched (exhaustively over the bounded space and two-step chains, randomly beyond), not proved",
     ]
     ck.cov["rule"] = (
         "every first round of C14's bounded space (<= 3 topics x (none | 0..4 partitions) x <= 3 members (thorough: 4) x every "
@@ -221,23 +222,14 @@ def run(ck: Check):
         res = run_impl("c14_impl.py", {"jobs": [{"kind": "chains", "chains": corpus}]})[0]
         for rounds in res:
             check_chain(ck, rounds, tally, streams, "corpus")
-        # the witness of c15_plus_refuted is what the real executor does in round 3 of the
-        # [1, 5] chain — as long as the finding reproduces (after a fix of /repo it no longer does)
+        # Example c15_plus_regression states the op log of the fixed code on round 3 of the [1, 5] chain
         wi = next((i for i, ch in enumerate(corpus) if ch["first"]["ppt"] == [1, 5]), None)
-        if wi is not None and len(res[wi]) == 3:
-            st = res[wi][2]["sticky"]
-            r2 = res[wi][1]["sticky"]
-            reproduces = "out" in st and "out" in r2 and bool(
-                moved_between([0, 1], r2["out"], st["out"]))
-            if reproduces:
-                ck.obligation("witness:c15_plus_refuted-log==real-log",
-                              st.get("assigns") == [] and st.get("reassigns") == [[1, 0, 2, 1, 0], [1, 2, 1, 1, 2]]
-                              and st.get("reverted") == 0
-                              and sorted(map(tuple, st.get("init", []))) == [(0, 1, 2), (0, 1, 3), (0, 1, 4), (1, 1, 0), (1, 1, 1)],
-                              json.dumps(st)[:300])
-            else:
-                ck.log("note: the known stickiness finding no longer reproduces on corpus/C15/unsubscribed_topic.json")
-                ck.extra["known_finding_reproduces"] = False
+        if wi is not None:
+            st = res[wi][2]["sticky"] if len(res[wi]) == 3 else {}
+            ck.obligation("regression:c15_plus_regression-log==real-log",
+                          st.get("assigns") == [] and st.get("reassigns") == [[1, 2, 2, 1, 2]] and st.get("reverted") == 0
+                          and sorted(map(tuple, st.get("init", []))) == [(0, 1, 0), (0, 1, 1), (0, 1, 2), (1, 1, 3), (1, 1, 4)],
+                          json.dumps(st)[:300])
 
     # ---------------- exhaustive: first round x second rounds
     max_m = ck.n(3, 4)
